@@ -156,6 +156,28 @@ def run(tier, seed):
         rec.case("kernels", (name, repr(contents), tuple(order), repr(tiles), repr(regs), repr(preset)),
                  sample=dict(expr=name, order=order, registered=regs))
         check(rec, "kernels", name, contents, sizes, order, tiles, regs, rnd.randrange(10 ** 6), preset)
+    # at scale: larger shapes (ranks of 10-30 coordinates)
+    big = {"matmul": dict(m=6, k=12, n=6), "matvec": dict(m=10, k=20), "dot": dict(k=30), "elementwise": dict(m=30), "reduce2": dict(m=8, k=14),
+           "outer": dict(m=10, n=9), "copy": dict(m=25)}
+    bnames = list(big)
+    for i in range(20 if tier == "quick" else 250):
+        if rec.out_of_time():
+            break
+        name = bnames[i % len(bnames)]
+        sizes = big[name]
+        expr = K.EXPRESSIONS[name]
+        contents = []
+        for idx in expr[1]:
+            pts = list(itertools.product(*[range(sizes[v]) for v in idx]))
+            contents.append({p: rnd.choice([1, 2, 3, -1]) for p in pts if rnd.random() < rnd.choice([0.2, 0.7])})
+        tiles = {}
+        if rnd.random() < 0.4:
+            v = rnd.choice(sorted(set("".join(expr[1]))))
+            tiles[v] = rnd.randint(1, sizes[v])
+        order = rnd.choice(list(K.loop_orders(expr, tiles)))
+        regs = rank_choices(order, rnd)
+        rec.case("scale", (name, repr(contents), tuple(order), repr(tiles), repr(regs)))
+        check(rec, "scale", name, contents, sizes, order, tiles, regs, rnd.randrange(10 ** 6), None)
     # populate over a non-leaf rank of an output that already holds reserved (empty) rows, with the populate traces registered
     rows = [None, {0: 1}, {1: 2}]
     combos = list(itertools.product(rows, repeat=6))
@@ -177,7 +199,8 @@ def run(tier, seed):
     return rec.result("seeded random kernels of the C06 family (random sparse operands, random legal loop order, optional tiling, output sometimes "
                       "pre-populated with explicit zeros / values) with a random subset of (rank, trace type) registrations: outputs with collection on == "
                       "off; Compute counts == operations counted by the harness; iter-trace rows == loop bodies per rank; a second identical session after "
-                      "an unrelated one gives identical dump and trace files; dense dot products over all value assignments")
+                      "an unrelated one gives identical dump and trace files; dense dot products over all value assignments; plus seeded random kernels at scale "
+                      "(ranks of 6-30 coordinates)")
 
 
 def check_dense(rec, part, vals):
